@@ -187,3 +187,119 @@ def apply(chk, rid, sites, floor=None):
             raise AnalysisError(f"anchor vanished: no loop over iter_variants() in {modname}:{qual}")
         for lp, cont, ok, detail, node in got:
             chk.ob(rid, f"{short}.{qual}[variant loop: {cont}]", ok, detail, m.loc(node))
+
+
+# ---------------------------------------------------------------------------------------------------------------------------------
+# per-variant functions must hand their variant to wrappers that would otherwise fall back to variant 0
+# ---------------------------------------------------------------------------------------------------------------------------------
+
+def defaulting_wrappers(repo):
+    """{method name: [(module, qual, parameter name, position)]} - methods with a per-variant parameter that defaults to None and is
+    replaced, when None, by the first variant of the container (p = self._variants[0] / self.get_variant(0) / next(iter_variants))"""
+    out = {}
+    for m in repo.modules.values():
+        for q, f in m.functions():
+            if "." not in q:
+                continue
+            a = f.args
+            pos = a.posonlyargs + a.args
+            dflt = dict(zip([x.arg for x in pos][len(pos) - len(a.defaults):], a.defaults))
+            dflt.update({x.arg: d for x, d in zip(a.kwonlyargs, a.kw_defaults) if d is not None})
+            for i, x in enumerate(pos + a.kwonlyargs):
+                p = x.arg
+                if not _is_variant_param(p) or p not in dflt or not (isinstance(dflt[p], ast.Constant) and dflt[p].value is None):
+                    continue
+                falls_back = any(isinstance(n, ast.Assign) and any(isinstance(t, ast.Name) and t.id == p for t in n.targets)
+                                 and ("_variants[0]" in unparse(n.value) or "get_variant(0" in unparse(n.value) or "iter_variants" in unparse(n.value))
+                                 for n in ast.walk(f))
+                if falls_back:
+                    out.setdefault(f.name, []).append((m.name, q, p, (i - 1) if i < len(pos) else None))
+    return out
+
+
+def wrapper_findings(repo, mod, f, wrappers=None):
+    """Yield (call, ok, detail) for calls, inside a per-variant function (one with a *_v / variant parameter), of a defaulting wrapper"""
+    wrappers = wrappers if wrappers is not None else defaulting_wrappers(repo)
+    mine = [p for p in all_params(f) if _is_variant_param(p)]
+    mine += [t.id for lp in ast.walk(f) if isinstance(lp, (ast.For, ast.comprehension)) for t in ast.walk(lp.target)
+             if isinstance(t, ast.Name) and _is_variant_param(t.id) and ("variants" in unparse(lp.iter))]
+    if not mine:
+        return
+    for c in ast.walk(f):
+        if not (isinstance(c, ast.Call) and isinstance(c.func, ast.Attribute) and c.func.attr in wrappers):
+            continue
+        if isinstance(c.func.value, ast.Name) and c.func.value.id in mine:
+            continue                       # a method of the variant itself
+        for (wm, wq, p, pos) in wrappers[c.func.attr]:
+            given = any(k.arg == p for k in c.keywords) or (pos is not None and len(c.args) > pos) or any(k.arg is None for k in c.keywords)
+            yield c, given, (f"{unparse(c.func)}(...) is given the variant" if given else
+                             f"{unparse(c.func)}(...) is called without {p}= inside a function that works on the variant {mine[0]!r}: "
+                             f"{wq.split('.')[-1]} falls back to the container's first variant, so every variant is computed from variant 0")
+            break
+
+
+_WRAP_EXAMPLE = '''
+class M:
+    def make(self, variant=None, **kw):
+        if variant is None:
+            variant = self._variants[0]
+        return variant.make(**kw)
+    def good(self, variant, n):
+        return self.make(variant=variant, n=n)
+    def good2(self, variant, n):
+        return variant.make(n=n)
+    def bad(self, variant, n):
+        return self.make(n=n)
+    def outside(self, n):
+        return self.make(n=n)
+'''
+
+
+def wrapper_self_check():
+    from .core import AnalysisError
+
+    class _M:
+        aliases = {}
+        name = "ex"
+
+        def __init__(self, src):
+            self.tree = ast.parse(src)
+
+        def functions(self):
+            for c in self.tree.body:
+                if isinstance(c, ast.ClassDef):
+                    for f in c.body:
+                        if isinstance(f, ast.FunctionDef):
+                            yield f"{c.name}.{f.name}", f
+
+    class _R:
+        pass
+    m = _M(_WRAP_EXAMPLE)
+    r = _R()
+    r.modules = {"ex": m}
+    w = defaulting_wrappers(r)
+    got = {q.split(".")[1]: [ok for _, ok, _ in wrapper_findings(r, m, f, w)] for q, f in m.functions()}
+    if list(w) != ["make"] or got != {"make": [], "good": [True], "good2": [], "bad": [False], "outside": []}:
+        raise AnalysisError(f"variant-wrapper rule self-check failed: {w} {got}")
+    return 5
+
+
+def apply_wrappers(chk, rid, packages, floor=1):
+    chk.rule(rid, "a function that works on one variant (it has a variant / *_v parameter) hands that variant to every container method "
+             "that would otherwise fall back to the container's first variant (methods with variant=None replaced by self._variants[0]); "
+             "wrappers found by scanning the repository", floor=floor, shape_independent=True)
+    n_ex = wrapper_self_check()
+    w = defaulting_wrappers(chk.repo)
+    n = 0
+    for m in chk.repo.modules.values():
+        top = m.name.split(".")[1] if "." in m.name else m.name
+        if top not in packages:
+            continue
+        short = m.name.replace("irispie.", "")
+        for q, f in m.functions():
+            for c, ok, detail in wrapper_findings(chk.repo, m, f, w):
+                n += 1
+                chk.saw(m, q)
+                chk.ob(rid, f"{short}.{q}[{c.func.attr}]", ok, detail, m.loc(c), sure=True)
+    chk.ok(rid, "wrappers", f"{len(w)} variant-defaulting wrapper(s) in the repository: {sorted(w)}; {n} call(s) from per-variant functions in "
+           f"{'/'.join(sorted(packages))}; embedded example classified as expected ({n_ex} methods)", "")
